@@ -89,7 +89,21 @@ package cache
 // checked to hand over the requested text, sanitised the documented way)
 //@ ghost var lastMessage string
 //@ ghost var lastTitle string
+//@ ghost var lastFiles []repository.Hash
 //@ func (*BugCache).AddCommentRaw
+//@   props C18 C11
+//@   opt locks
+//@   opt post_unguarded
+//@   requires [authored-by-request-user] requestUser != nil ==> typeof(author) == type[*IdentityCache] && author.(*IdentityCache) == requestUser
+//@   requires [not-held@locks] c != nil && sync.rwheld[&c.mu] == 0
+//@   modifies bugOps, repoWrites, entityNotifies, lastMessage, lastFiles
+//@   opt trusted_frame
+//@   stable entityNotifies
+//@   defines [text-recorded] lastMessage == message
+//@   defines [files-recorded] lastFiles == files
+//@   defines bugOps >= old(bugOps) && (err == nil ==> bugOps == old(bugOps) + 1)
+//@   ensures [sub-cache-notified] err == nil ==> entityNotifies == old(entityNotifies) + 1
+//@   ensures [lock-balanced] forall m *sync.RWMutex :: { sync.rwheld[m] } sync.rwheld[m] == old(sync.rwheld[m])
 //@ func (*BugCache).EditCreateCommentRaw
 //@ func (*BugCache).EditCommentRaw
 //@   props C18 C11
@@ -133,11 +147,14 @@ package cache
 //@   defines bugOps >= old(bugOps) && (err == nil ==> bugOps == old(bugOps) + 1)
 //@   ensures [sub-cache-notified] err == nil ==> entityNotifies == old(entityNotifies) + 1
 //@   ensures [lock-balanced] forall m *sync.RWMutex :: { sync.rwheld[m] } sync.rwheld[m] == old(sync.rwheld[m])
+// lastNewMeta: the metadata the last bug was created with (ghost record, "" for an absent key)
+//@ ghost var lastNewMeta map[string]string
 //@ func (*RepoCacheBug).NewRaw
 //@   trusted
 //@   requires [authored-by-request-user] requestUser != nil ==> typeof(author) == type[*IdentityCache] && author.(*IdentityCache) == requestUser
-//@   modifies bugOps, repoWrites
+//@   modifies bugOps, repoWrites, lastNewMeta
 //@   ensures bugOps >= old(bugOps) && (err == nil ==> bugOps == old(bugOps) + 1)
+//@   defines [metadata-recorded] forall k string :: { lastNewMeta[k] } lastNewMeta[k] == ((metadata != nil && (k in metadata)) ? metadata[k] : "")
 
 // The sub-cache is told about an edit only after the entity's own lock has been released: entityUpdated takes
 // the sub-cache lock and, holding it, the entity's read lock (to build the excerpt) - notifying with the
@@ -646,6 +663,9 @@ package cache
 
 // Committing, validating and mutating a cached entity: the entity lock is taken and released around the
 // entity-level call on every path, and the sub-cache is notified with no lock held.
+// opsAtLastCommit: the number of operations appended through the cache when the last successful commit was made
+// (ghost record: lets the API layer be held to "what the answer shows has been committed")
+//@ ghost var opsAtLastCommit int
 //@ func (*CachedEntityBase).Commit
 //@ func (*CachedEntityBase).CommitAsNeeded
 //@   props C18 C11
@@ -653,7 +673,8 @@ package cache
 //@   opt interior_ok
 //@   opt post_unguarded
 //@   stable entityNotifies
-//@   modifies repoWrites, entityNotifies
+//@   modifies repoWrites, entityNotifies, opsAtLastCommit
+//@   defines [commits-what-was-appended] result == nil ==> opsAtLastCommit == bugOps
 //@   opt trusted_frame
 //@   requires [not-held@locks] e != nil && sync.rwheld[&e.mu] == 0
 //@   ensures [lock-balanced] forall m *sync.RWMutex :: { sync.rwheld[m] } sync.rwheld[m] == old(sync.rwheld[m])
@@ -788,8 +809,13 @@ package cache
 //@   loop 1
 //@     invariant len(prefixes) == len(c.subcaches) && fresh(prefixes)
 //@     invariant forall i int :: { prefixes[i] } 0 <= i && i <= rangeindex ==> prefixes[i] == c.subcaches[i].GetNamespace()
+// mergeRuns counts the merges started through the cache
+//@ ghost var mergeRuns int
 //@ func (*RepoCache).MergeAll
 //@   props C02
+//@   modifies mergeRuns
+//@   opt trusted_frame
+//@   defines [counted] mergeRuns == old(mergeRuns) + 1
 //@   assert at `go func() {` [identities-before-bugs] len(dependency) == 2 && len(dependency[0]) == 1 && len(dependency[1]) == 1 && dependency[0][0] == c.identities && dependency[1][0] == c.bugs
 
 // Opening a cache (C19): the lock is taken before anything is read or built, and a refused lock ends the opening -
@@ -798,3 +824,13 @@ package cache
 //@   props C19
 //@   requires c != nil && c.repo != nil
 //@   assert at `err = c.load()` [loads-only-holding-the-lock] err == nil && lastAvailable
+
+// A pull is a fetch followed by a merge (C02: "entities that only existed on the remote now exist locally"): whatever the
+// fetch answers - also "already up to date", the remote-tracking refs may hold what an earlier fetch brought and no
+// merge has looked at yet - a pull that reports success has run the merge, and it fails when an entity is invalid.
+//@ func (*RepoCache).Pull
+//@   props C02
+//@   stable mergeRuns
+//@   ensures [a-successful-pull-has-merged] result == nil ==> mergeRuns == old(mergeRuns) + 1
+//@   loop 1
+//@     invariant mergeRuns == old(mergeRuns) + 1
